@@ -720,6 +720,32 @@ func run(c *Ctx) error {
 		return fmt.Errorf("degenerate random stream: %d parsable, %d rejected", nOK, nErr)
 	}
 
+	// ---- many distinct jump targets: Disassemble names its labels from a fixed word list and
+	// must keep them distinct when there are more targets than words (k jumps to k distinct
+	// instruction starts, k around and beyond the length of the list and its multiples)
+	for _, k := range []int{1, 2, 23, 24, 25, 26, 27, 28, 29, 47, 48, 49, 50, 51, 52, 53, 54, 60, 75, 100, 130} {
+		for variant := 0; variant < 2; variant++ {
+			var prog []byte
+			for i := 0; i < k; i++ {
+				// each jump targets its own NOP placed after all the jumps (5 bytes per jump)
+				target := uint32(5*k + i)
+				if variant == 1 { // backwards order of targets, JUMPIF for odd ones
+					target = uint32(5*k + (k - 1 - i))
+				}
+				op := byte(0x63)
+				if variant == 1 && i%2 == 1 {
+					op = 0x64
+				}
+				prog = append(prog, op, byte(target), byte(target>>8), byte(target>>16), byte(target>>24))
+			}
+			for i := 0; i < k; i++ {
+				prog = append(prog, 0x61)
+			}
+			check(prog, "many-jump-targets", k <= 60, k <= 60)
+			st.Count("many-jump-targets")
+		}
+	}
+
 	// ---- builders
 	lens := []int{0, 1, 2, 19, 20, 21, 31, 32, 33, 74, 75, 76, 77, 254, 255, 256, 257, 290}
 	for k, n := 0, c.N(60, 200); k < n; k++ {
